@@ -454,3 +454,21 @@ func D10Ambiguous(p *gabi.ProofD, revIdx int) bool {
 	}
 	return false
 }
+
+// FreshKey1024 parses fixed key pair i (0 or 1) anew: a key object nothing has used yet.
+func FreshKey1024(i int) KeyPair {
+	x := [][2]string{{xmlPrivKey1, xmlPubKey1}, {xmlPrivKey2, xmlPubKey2}}[i]
+	sk, err := gabikeys.NewPrivateKeyFromXML(x[0], false)
+	if err != nil {
+		Fatal("fixed private key: %v", err)
+	}
+	pk, err := gabikeys.NewPublicKeyFromXML(x[1])
+	if err != nil {
+		Fatal("fixed public key: %v", err)
+	}
+	if err := gabikeys.GenerateRevocationKeypair(sk, pk); err != nil {
+		Fatal("revocation keypair: %v", err)
+	}
+	pk.Issuer = fmt.Sprintf("fresh%d", i+1)
+	return KeyPair{sk, pk}
+}
